@@ -29,7 +29,7 @@ PATTERNS = {
 ALLNUCS = ["U235", "U238", "ZR", "FE", "CR", "NA"]
 
 
-def fill(ctx, b, pattern, tag="", geom=False, nlo=0.0):
+def fill(ctx, b, pattern, tag="", geom=False, nlo=0.0, signed=()):
     """(pattern: a key of PATTERNS or a {component: [nuclides]} dict.)  Inject symbolic number densities and either symbolic component volumes (geom=False) or a symbolic
     block height with the real component areas (geom=True: volume = area x height computed by armi).
     Returns ({comp: vol}, {(comp, nuc): dens})."""
@@ -43,7 +43,8 @@ def fill(ctx, b, pattern, tag="", geom=False, nlo=0.0):
             c.p.volume = None
             vols[c.name] = c.getVolume()
         else:
-            v = ctx.real("v_%s%s" % (c.name, tag), 1e-3, 1e4)
+            # (signed: components whose volume may be negative, see block_with_a_negative_volume_gap)
+            v = ctx.real("v_%s%s" % (c.name, tag), -1e4 if c.name in signed else 1e-3, 1e4)
             c.p.volume = v
             vols[c.name] = v
         nd = {}
@@ -224,13 +225,17 @@ def block_set_number_densities_and_refusal(ctx, pattern):
 
 
 @harness("C02", bounds="real geometry incl. derived-shape coolant, symbolic block height and densities; new mass "
-                       "fraction in (0.01,0.9) symbolic", stubs=STUBS, qtimeout_ms=30000,
-         instances={"quick": [dict(pattern="shared", nuc="FE")],
-                    "thorough": [dict(pattern="typical", nuc="U235"), dict(pattern="shared", nuc="FE")]})
-def block_set_mass_fracs(ctx, pattern, nuc):
-    b = _build.mk_block(coolant=True)
+                       "fraction in (0.01,0.9) symbolic; gap=True: the pin has a linked Void gap closed by thermal "
+                       "expansion (a child of negative volume)", stubs=STUBS, qtimeout_ms=30000,
+         instances={"quick": [dict(pattern="shared", nuc="FE"), dict(pattern="shared", nuc="FE", gap=True)],
+                    "thorough": [dict(pattern="typical", nuc="U235"), dict(pattern="shared", nuc="FE"),
+                                 dict(pattern="typical", nuc="U235", gap=True), dict(pattern="shared", nuc="FE", gap=True)]})
+def block_set_mass_fracs(ctx, pattern, nuc, gap=False):
+    b = mk_block_with_gap(coolant=True) if gap else _build.mk_block(coolant=True)
     PATTERNS[pattern]["coolant"] = ["NA"]
     vols, dens = fill(ctx, b, pattern, geom=True)
+    if gap:
+        assert b.getComponentByName("gap").getArea() < 0.0, "the scenario needs a gap closed by thermal expansion"
     for k, n in dens.items():
         ctx.assume(n >= 1e-4)
     rho0 = b.density()
@@ -904,3 +909,116 @@ def block_area_and_assembly_volume_after_cold_and_hot_queries(ctx):
     V = sum(b.getVolume() for b in a)
     ctx.check_close("assembly volume = sum of the block volumes, whatever was asked of the blocks before",
                     a.getVolume(), V, scale=V)
+
+
+# ---------------------------------------------------------------------------------------------------------
+# blocks with a child of NEGATIVE volume: a Void gap between fuel and cladding whose dimensions are linked to its
+# neighbours (od = clad.id, id = fuel.od) reports a negative area once thermal expansion has closed it (hot fuel od >
+# hot clad id); armi allows that for Void so that fuel + gap + clad still add up to the area inside the cladding.  The
+# property quantifies over "all blocks built from all component shapes, materials and temperatures": the block volume
+# is still the SIGNED sum of its children's volumes, the homogenised densities are the means weighted with those signed
+# volumes, and whatever is set at block level has to read back at block level.
+
+from armi.reactor import blocks as _blocks, components as _components  # noqa: E402
+
+
+def mk_block_with_gap(fuelOD=0.77, coolant=False):
+    """The reference pin of _build.mk_block plus a linked Void gap; cold fuel od 0.77 = cold clad id closes the gap at
+    temperature (fuelOD=0.76 leaves it open)."""
+    b = _blocks.HexBlock("fuel", height=10.0)
+    fuel = _components.Circle("fuel", "UZr", Tinput=25.0, Thot=600, od=fuelOD, id=0.0, mult=127.0)
+    clad = _components.Circle("clad", "HT9", Tinput=25.0, Thot=450, od=0.80, id=0.77, mult=127.0)
+    gap = _components.Circle("gap", "Void", Tinput=25.0, Thot=450, od="clad.id", id="fuel.od", mult=127.0,
+                             components={"clad": clad, "fuel": fuel})
+    duct = _components.Hexagon("duct", "HT9", Tinput=25.0, Thot=400, op=16, ip=15.3, mult=1.0)
+    comps = [fuel, gap, clad, duct]
+    if coolant:
+        comps.append(_components.DerivedShape("coolant", "Sodium", Tinput=25.0, Thot=400))
+    comps.append(_components.Hexagon("intercoolant", "Sodium", Tinput=25.0, Thot=400, op=16.2, ip=16.0, mult=1.0))
+    for c in comps:
+        b.add(c)
+    b.setType("fuel")
+    return b
+
+
+def fill_with_gap(ctx, b, pattern, geom):
+    """fill(): the gap holds nothing.  geom=True: real areas (the gap's is negative) x symbolic height.  geom=False:
+    every volume symbolic, the gap's of EITHER sign, an overlap of at most half the fuel and half the cladding."""
+    vols, dens = fill(ctx, b, pattern, geom=geom, signed=("gap",))
+    if geom:
+        assert b.getComponentByName("gap").getArea() < 0.0, "the scenario needs a gap closed by thermal expansion"
+    else:
+        ctx.assume(AND(vols["gap"] >= -0.5 * vols["fuel"], vols["gap"] >= -0.5 * vols["clad"]))
+    return vols, dens
+
+
+@harness("C02", bounds="one real HexBlock: fuel, linked Void gap, clad, duct, intercoolant; geom=False: every volume "
+                       "symbolic in [1e-3,1e4] and the gap's in [-1e4,1e4] (negative = closed gap, overlap at most half "
+                       "the fuel / clad volume); geom=True: real areas with the gap closed by thermal expansion (negative "
+                       "area) x symbolic height [1,400]; densities in [0,10], requested densities in [0,10] and masses "
+                       "in [0,1e5] symbolic; getters and every block-level setter", stubs=STUBS, qtimeout_ms=20000,
+         instances={"quick": [dict(pattern="typical", nuc="FE", geom=False), dict(pattern="shared", nuc="U235", geom=True)],
+                    "thorough": [dict(pattern=p, nuc=n, geom=g) for p, n in (("typical", "FE"), ("shared", "U235"),
+                                                                             ("typical", "NA"), ("sparse", "U235"))
+                                 for g in (False, True)]})
+def block_with_a_negative_volume_gap(ctx, pattern, nuc, geom):
+    b = mk_block_with_gap()
+    vols, dens = fill_with_gap(ctx, b, pattern, geom)
+    V = sum(vols.values())                       # signed sum; positive by the assumptions
+    holders = [c.name for c in b if nuc in PATTERNS[pattern].get(c.name, [])]
+    Vh = sum(vols[c] for c in holders)
+    # getters: signed volumes everywhere
+    ctx.check_close("block volume = (signed) sum of the component volumes", b.getVolume(), V, scale=V)
+    fr = dict((c.name, f) for c, f in b.getVolumeFractions())
+    ctx.check_close("volume fractions sum to one", sum(fr.values()), 1.0, scale=1.0)
+    for name, f in fr.items():
+        ctx.check_close("volume fraction of %s x block volume = its volume" % name, f * V, vols[name], scale=V)
+    for k in ALLNUCS:
+        num, _ = homog(vols, dens, k)
+        ctx.check_close("N(%s) x block volume = sum of N x V over the components" % k, b.getNumberDensity(k) * V, num,
+                        scale=num + 1e-30)
+        ctx.check_close("mass(%s) = sum of children = N V A / k" % k, b.getMass(k), num * atw(k) / K,
+                        scale=num * atw(k) / K + 1e-30)
+    tot = b.getMass()
+    ctx.check_close("mass = density x volume (block)", tot, b.density() * b.getVolume(), scale=tot + 1e-30)
+    # setters read back at block level
+    before = _snapshot(b, skip=[nuc])
+    x = ctx.real("x", 0.0, 10.0)
+    b.setNumberDensity(nuc, x)
+    got = b.getNumberDensity(nuc)
+    if ctx.canary:
+        got = got * ITE(x > 9.99, 1 + vols["clad"] / V, 1)
+    ctx.check_close("setNumberDensity reads back", got, x, scale=x + 1e-30)
+    ctx.check_close("... atoms summed over the holders = requested density x block volume",
+                    sum(b.getComponentByName(c).getNumberDensity(nuc) * vols[c] for c in holders), x * V,
+                    scale=x * V + 1e-30)
+    _same(ctx, b, before, "setNumberDensity(%s)" % nuc)
+    y = ctx.real("y", 0.0, 10.0)
+    z = ctx.real("z", 0.0, 10.0)
+    other = "NA" if nuc != "NA" and any("NA" in v for v in PATTERNS[pattern].values()) else None
+    before = _snapshot(b, skip=[nuc, other])
+    upd = {nuc: y}
+    if other:
+        upd[other] = z
+    b.updateNumberDensities(dict(upd))
+    ctx.check_close("updateNumberDensities reads back", b.getNumberDensity(nuc), y, scale=y + 1e-30)
+    if other:
+        ctx.check_close("updateNumberDensities reads back (2nd)", b.getNumberDensity(other), z, scale=z + 1e-30)
+    _same(ctx, b, before, "updateNumberDensities")
+    w = ctx.real("w", 0.0, 10.0)
+    b.updateNumberDensities({"PU239": w})
+    ctx.check_close("updateNumberDensities reads back a nuclide no child held", b.getNumberDensity("PU239"), w,
+                    scale=w + 1e-30)
+    m = ctx.real("m", 0.0, 1e5)
+    before = _snapshot(b, skip=[nuc])
+    b.setMass(nuc, m)
+    ctx.check_close("setMass reads back", b.getMass(nuc), m, scale=m + 1e-30)
+    _same(ctx, b, before, "setMass")
+    dm = ctx.real("dm", 0.0, 1e5)
+    b.addMass(nuc, dm)
+    ctx.check_close("addMass adds", b.getMass(nuc), m + dm, scale=m + dm + 1e-30)
+    b.removeMass(nuc, dm)
+    ctx.check_close("removeMass removes", b.getMass(nuc), m, scale=m + dm + 1e-30)
+    _same(ctx, b, before, "addMass / removeMass")
+    tot = b.getMass()
+    ctx.check_close("after the edits: mass = density x volume (block)", tot, b.density() * b.getVolume(), scale=tot + 1e-30)
